@@ -3,6 +3,7 @@
 # Regenerates the model from /repo, builds the driver and every property module (also warms the Mathlib oleans).
 cd "$(dirname "$0")"
 python3 tools/translate.py /repo/src/pystog lean/PystogVerif/Gen
+python3 tools/translate_stog.py /repo/src/pystog lean/PystogVerif/Gen
 cd lean
 lake build drv drvm drvp 2>&1 | tail -3
 lake build PystogVerif 2>&1 | tail -15
